@@ -109,6 +109,7 @@ def loadedLine (d : Dict String) : String :=
 def errLine : BErr → String
   | .unknownField => "refused field"
   | .unknownComp => "refused component"
+  | .cycle => "refused cycle"
   | .overflow => "crash"
 
 def typesLine (a : Ast String) : String :=
@@ -124,8 +125,8 @@ structure DictSt where
   ast : Option (Ast String) := none
   dict : Option (Dict String) := none
 
-/-- which NewMessageDef the tree under test has: the fixed one -/
-def buildModel (a : Ast String) : Except BErr (Dict String) := build a
+/-- the builder of the tree under test: D10 fix and circular-reference check -/
+def buildModel (a : Ast String) : Except BErr (Dict String) := buildS a
 
 def dictLoad (a : Ast String) : DictSt × String :=
   match buildModel a with
